@@ -61,6 +61,7 @@ def run_session(tag, cfg, seed, ops_filter=None, redeliver=True, setup_only=Fals
     s.ok = False
     s.why = None
     k = sim.k
+    k.keep_snaps = True
     extra = []
     if cfg.get("check_ip_off"):
         extra.append("-c")
